@@ -140,6 +140,16 @@ def run(tier, seed, replay=None):
         if site not in seen:
             seen.add(site)
             res.violation(site, what, rep)
+    # largest-timeframe selection agrees with the timeframe lengths, decided on the implementation alone
+    for l in subsets:
+        try:
+            got = jh.max_timeframe(list(l))
+            mins = {t: jh.timeframe_to_one_minutes(t) for t in l}
+        except Exception as ex:
+            report('max_timeframe_raises', 'max_timeframe raises on a list of supported timeframes', {'timeframes': l, 'error': type(ex).__name__ + ': ' + str(ex)[:120]}); continue
+        if got not in mins or mins[got] != max(mins.values()):
+            report('max_timeframe_is_not_the_longest', 'max_timeframe returns a timeframe that is not the longest of the list by timeframe_to_one_minutes',
+                   {'timeframes': l, 'returned': got, 'minutes': mins})
     for i, code in sorted(codes.items()):
         if not code:
             continue
